@@ -2220,3 +2220,109 @@ Proof.
       apply Jg_publish_neutral; [reflexivity|exact I|]. apply (Jg_quiet none2 no1 (set_incall h1 k sid false) g (h2, o2) Q).
       eapply Jg_same; [apply same_set_incall|exact J1].
 Qed.
+
+(* ------------------------------------------------------------------ one step from an empty bus *)
+Lemma quiet_fold_sessions l f : (forall hh x, quiet hh (f hh x)) -> forall h, quiet h (fold_sessions h l f).
+Proof.
+  intros Hf. induction l as [|x l IH]; intros h; [apply quiet_ret|].
+  rewrite fold_sessions_cons. pose proof (Hf h x) as Q1. destruct (f h x) as [h1 o1].
+  pose proof (IH h1) as Q2. destruct (fold_sessions h1 l f) as [h2 o2]. apply (quiet_seq h (h1, o1) (h2, o2) Q1 Q2).
+Qed.
+
+Ltac jerr := cbn [fst snd]; apply Jg_irr; [reflexivity|assumption].
+
+Lemma J_with_session h g c f : WF h -> J h g ->
+  (forall cn sid s, aget (h_conns h) c = Some cn -> c_sess cn = Some sid -> get_sess h sid = Some s ->
+                    is_virtual (s_kind s) = false -> J (fst (f cn sid s)) (gouts g (snd (f cn sid s)))) ->
+  J (fst (with_session h c f)) (gouts g (snd (with_session h c f))).
+Proof.
+  intros W HJ Hf. unfold with_session. destruct (aget (h_conns h) c) as [cn|] eqn:Hc; [|exact HJ].
+  destruct (c_sess cn) as [sid|] eqn:Hcs; [|jerr].
+  destruct (get_sess h sid) as [s|] eqn:Hs; [|jerr].
+  apply (Hf cn sid s eq_refl Hcs Hs).
+  destruct (wf_conns _ _ h W c cn sid Hc Hcs) as (s' & Hs' & Hc'). assert (s' = s) by congruence. subst s'.
+  destruct (is_virtual (s_kind s)) eqn:Hv; [|reflexivity]. rewrite (j_vconn _ _ (proj1 HJ) sid s Hs Hv) in Hc'. discriminate.
+Qed.
+
+Lemma nobody_on h g c cn : Jh h g -> aget (h_conns h) c = Some cn -> c_sess cn = None ->
+  forall x s, get_sess h x = Some s -> s_conn s <> Some c.
+Proof. intros H Hc Hn x s Hx Hxc. destruct (j_cs _ _ H x s c Hx Hxc) as (cn' & Hcn' & Hcs'). congruence. Qed.
+
+Lemma J_step h g o : WF h -> J h g -> h_bus h = [] -> J (fst (step h o)) (gouts g (snd (step h o))).
+Proof.
+  intros W HJ Hbus. unfold J in *.
+  assert (Hna : forall p, In p (h_bus h) -> not_asj p) by (rewrite Hbus; intros p []).
+  destruct o as [c addr|c hl|c rn rs rep|c to tag|c to tag|c|c|secs|b signas room q|c q|c to mk stream media|tok ok|c kindn key val|pos|c hl late];
+    cbn [step].
+  - (* connect *)
+    destruct (aget (h_conns h) c) as [cn|] eqn:Hc; [exact HJ|]. apply Jg_irr; [reflexivity|]. cbn [fst]. apply Jg_set_conn; [exact HJ|].
+    intros x s Hx Hxc. destruct (j_cs _ _ (proj1 HJ) x s c Hx Hxc) as (cn' & Hcn' & _). congruence.
+  - (* hello *)
+    destruct (aget (h_conns h) c) as [cn|] eqn:Hc; [|exact HJ]. destruct (c_sess cn) eqn:Hcs; [exact HJ|].
+    pose proof (nobody_on h g c cn (proj1 HJ) Hc Hcs) as Hno.
+    apply Jg_do_hello; [exact Hno|]. now apply Jg_set_conn.
+  - (* join *)
+    apply J_with_session; auto. intros cn sid s Hc Hcs Hs Hv.
+    pose proof (Jg_do_join h g c sid s rn rs rep W HJ Hs Hv Hna) as J1.
+    destruct (do_join h c sid s rn rs rep) as [h1 o1]. cbn [fst snd] in J1.
+    destruct rep as [[p|] su|code]; try exact J1. destruct (get_sess h1 sid) as [s1|]; [|exact J1].
+    match goal with |- context [if ?b then _ else _] => destruct b end; [|exact J1].
+    pose proof (quiet_revoke h1 sid) as Q. destruct (revoke h1 sid) as [h2 o2]. cbn [fst snd]. rewrite gouts_app.
+    apply (Jg_quiet none2 no1 h1 _ (h2, o2) Q J1).
+  - (* message *)
+    apply J_with_session; auto. intros cn sid s _ _ _ _. now apply Jg_do_message.
+  - (* control *)
+    apply J_with_session; auto. intros cn sid s _ _ _ _. destruct (allowed_control s); [now apply Jg_do_message|exact HJ].
+  - (* bye *)
+    destruct (aget (h_conns h) c) as [cn|]; [|exact HJ]. destruct (c_sess cn); [|jerr]. now apply Jg_send_conn.
+  - (* drop *)
+    destruct (aget (h_conns h) c) as [cn|] eqn:Hc; [|exact HJ]. apply Jg_irr; [destruct (c_sess cn) as [sid|]; [destruct (get_sess _ sid)|]; reflexivity|].
+    assert (Hone : forall x s, get_sess h x = Some s -> s_conn s = Some c -> c_sess cn = Some x).
+    { intros x s Hx Hxc. destruct (j_cs _ _ (proj1 HJ) x s c Hx Hxc) as (cn' & Hcn' & Hcs'). congruence. }
+    destruct (c_sess cn) as [sid|] eqn:Hcs.
+    2:{ cbn [fst]. apply Jg_conn_gone; [exact HJ|]. intros x s Hx Hxc. specialize (Hone x s Hx Hxc). discriminate. }
+    change (get_sess (set_conns h (adel (h_conns h) c)) sid) with (get_sess h sid).
+    destruct (get_sess h sid) as [s|] eqn:Hs.
+    + cbn [fst]. apply (Jg_same none2 no1 (set_conns (put_sess h sid (sess_conn s None)) (adel (h_conns (put_sess h sid (sess_conn s None))) c))).
+      2:{ apply Jg_conn_gone; [now apply Jg_disconnect|]. intros x t Hx Hxc. rewrite get_put in Hx.
+          destruct (N.eqb_spec x sid) as [->|Hne]; [injection Hx as <-; discriminate|].
+          specialize (Hone x t Hx Hxc). congruence. }
+      apply same_fields; try reflexivity; apply N.le_refl.
+    + cbn [fst]. apply Jg_conn_gone; [exact HJ|]. intros x t Hx Hxc. specialize (Hone x t Hx Hxc). congruence.
+  - (* tick *)
+    apply (WJ_do_tick none2 no1 h g secs). split; assumption.
+  - (* room API *)
+    destruct (negb (N.eqb b signas) || (h_nb h <=? b)); [exact HJ|now apply Jg_do_api].
+  - (* internal *)
+    apply J_with_session; auto. intros cn sid s _ _ Hs _. destruct (is_internal (s_kind s)) eqn:Hi; [|exact HJ].
+    now apply J_do_internal.
+  - (* media *)
+    apply J_with_session; auto. intros cn sid s _ _ Hs _. apply (Jg_quiet none2 no1 h g); [now apply quiet_do_media|exact HJ].
+  - (* media server *)
+    apply (Jg_quiet none2 no1 h g); [apply quiet_do_mcudone|exact HJ].
+  - (* transient data *)
+    apply J_with_session; auto. intros cn sid s _ _ Hs _.
+    destruct (s_room s) as [k|]; [|jerr]. destruct (negb (allowed_transient s)); [jerr|].
+    destruct (room_of h k) as [r|] eqn:Hr; [|exact HJ].
+    assert (Hq : forall tr kk, quiet h (fold_sessions (set_rooms h (pset (h_rooms h) k (mkroom (r_members r) (r_incall r) (r_sessdata r) tr (r_props r))))
+               (filter (fun m => match get_sess h m with Some t => negb (is_virtual (s_kind t)) | None => false end) (r_members r))
+               (fun hh m => send_session hh m (STransient kk key)))).
+    { intros tr kk. eapply quiet_pre; [apply (same_room_update h k r (mkroom (r_members r) (r_incall r) (r_sessdata r) tr (r_props r))); [exact Hr|reflexivity]|].
+      apply quiet_fold_sessions. intros hh x. now apply quiet_send_irr. }
+    destruct (N.eqb kindn 0).
+    + destruct (aget (r_transient r) key) as [v|]; [destruct (N.eqb v val); [exact HJ|]|]; (apply (Jg_quiet none2 no1 h g); [apply Hq|exact HJ]).
+    + destruct (aget (r_transient r) key) as [v|]; [|exact HJ]. apply (Jg_quiet none2 no1 h g); [apply Hq|exact HJ].
+  - (* deliver: nothing is queued *)
+    unfold deliver_at. rewrite Hbus. destruct (N.to_nat pos); exact HJ.
+  - (* hello aborted *)
+    destruct (aget (h_conns h) c) as [cn|]; [|exact HJ]. destruct (c_sess cn); [exact HJ|].
+    destruct hl as [b u rej|b u t|b tok f d|i]; try exact HJ.
+    + destruct rej; [exact HJ|]. destruct (h_nb h <=? b); [exact HJ|].
+      match goal with |- context [close_conn ?hh c] => assert (WJ1 : WFg none2 none1 hh /\ Jg none2 no1 hh g) end.
+      { destruct late; [|split; assumption]. split; [eapply wf_equiv; [apply equiv_nextsid|exact W]|].
+        eapply Jg_same; [|exact HJ]. apply same_fields; try reflexivity; try apply N.le_refl. cbn. apply N.lt_le_incl, next_id_gt. }
+      destruct WJ1 as [W1 J1].
+      match goal with |- context [close_conn ?hh c] => pose proof (Jg_close_conn none2 no1 hh g c W1 J1) as J2; destruct (close_conn hh c) as [h2 o2] end.
+      cbn [fst snd] in *. rewrite gouts_cons. exact J2.
+    + now apply Jg_close_conn.
+Qed.
